@@ -6,7 +6,7 @@
    addresses each neighbour at most once, and only neighbours: the mixin's documented
    contract), [sync_proto nbrs G] the model of SynchronousComputationMixin over the network
    of Net.v, any schedule of Start / per-channel-FIFO Deliver actions, any start order. *)
-From PyDcop Require Import Base Net M_SyncMixin P_SyncMixin.
+From PyDcop Require Import Base Net NetPause M_SyncMixin P_SyncMixin P_SyncPause.
 Local Open Scope nat_scope.
 
 (* neither ComputationException branch (nor the ValueError of _switch_cycle) is reachable *)
@@ -57,7 +57,42 @@ Theorem sync_never_stuck : forall A P nbrs (G : algo A P), graph_ok nbrs -> algo
     ~ (forall a b, chan cf a b = []).
 Proof. exact (@sync_never_stuck_l). Qed.
 
+(* ---- pause / resume of started computations (what the orchestrator does around scenario events)
+   is a stutter of the network model: for EVERY protocol plugged into Net.v, every run with pauses
+   emits the events of its projected schedule (no P / R actions, no deliveries to a paused
+   computation -- the `model_schedule` of the driver) run on the plain network, and ends in the
+   abstraction of its final configuration (held messages back in front of their channels), which is
+   a reachable plain configuration.  Hence every theorem about [run] / [reachable] above (and those
+   of C03, C04, C05, C07, which use the same Net.v) speaks about paused runs too. *)
+Theorem pause_is_stutter : forall (St Msg Ev : Type) (P : proto St Msg Ev) (sched : list eaction),
+  snd (run P (snd (erun P sched))) = snd (fst (erun P sched)) /\
+  ceq (abs (fst (fst (erun P sched)))) (fst (run P (snd (erun P sched)))) /\
+  reachable P (fst (run P (snd (erun P sched)))) /\
+  EInv (fst (fst (erun P sched))).
+Proof. exact pause_is_stutter_l. Qed.
+
+(* once everything is resumed the configuration itself (states, hold buffers, channels) is the plain one *)
+Theorem resumed_is_plain : forall (St Msg Ev : Type) (P : proto St Msg Ev) (sched : list eaction),
+  (forall n, e_paused (fst (fst (erun P sched))) n = false) ->
+  ceq (e_cf (fst (fst (erun P sched)))) (fst (run P (snd (erun P sched)))).
+Proof. exact resumed_is_plain_l. Qed.
+
+(* C08 with pauses: no error branch is reachable, neighbours stay one round apart *)
+Theorem sync_no_error_paused : forall A P nbrs (G : algo A P), graph_ok nbrs -> algo_ok nbrs G ->
+  forall (sched : list eaction) n k, ~ In (EvRaise n k) (snd (fst (erun (sync_proto nbrs G) sched))).
+Proof. exact sync_no_error_paused_l. Qed.
+
+Theorem sync_neighbours_one_apart_paused : forall A P nbrs (G : algo A P), graph_ok nbrs -> algo_ok nbrs G ->
+  forall (sched : list eaction) a b,
+    let e := fst (fst (erun (sync_proto nbrs G) sched)) in
+    In a (nbrs b) ->
+    w_running (nodes (e_cf e) a) = true -> w_running (nodes (e_cf e) b) = true ->
+    (cur (w_st (nodes (e_cf e) a)) <= S (cur (w_st (nodes (e_cf e) b))))%nat.
+Proof. exact sync_neighbours_one_apart_paused_l. Qed.
+
 Print Assumptions sync_no_error.
+Print Assumptions pause_is_stutter.
+Print Assumptions sync_no_error_paused.
 Print Assumptions sync_round_inputs.
 Print Assumptions sync_never_stuck.
 
@@ -97,3 +132,14 @@ Example c08_nonvacuous :
   map ev_to_o (snd (run P [Start 0; Start 2; Deliver 0 1; Start 1; Deliver 2 1; Deliver 0 1]%Z))
     = [OCycle 1 0 [(2, 8); (0, 7)]]%Z.
 Proof. vm_compute. reflexivity. Qed.
+
+(* non-vacuity of the pause theorems: node 1 is paused while both neighbours' round-0 messages arrive
+   (held, not handled), then resumed: the held messages come back in front of their channels and the
+   projected schedule has neither the pause actions nor the two held deliveries *)
+Example c08_pause_nonvacuous :
+  let P := sync_proto (nbrs_of ex_graph) (table_algo ex_plan) in
+  let r := erun P [EStart 0; EStart 2; EStart 1; EPause 1; EDeliver 0 1; EDeliver 2 1; EResume 1;
+                   EDeliver 0 1; EDeliver 2 1]%Z in
+  map ev_to_o (snd (fst r)) = [OCycle 1 0 [(0, 7); (2, 8)]]%Z /\
+  snd r = [Start 0; Start 2; Start 1; Deliver 0 1; Deliver 2 1]%Z.
+Proof. vm_compute. split; reflexivity. Qed.
